@@ -83,6 +83,9 @@ def member_accesses(fn_ast, struct_name):
 def run(ast, fns, consts, macros, cf, ob, OBS):
     compute_key_params(fns)
     key_hygiene(fns, cf, ob)
+    health_slot_table(fns, consts, macros, ob)
+    raw_header_bytes(fns, cf, ob)
+    OBS.append({"rule": "PARSER/raw-byte-reads", "construct": "instances", "pos": "-", "ok": OBS_N.get("raw", 0) >= 2, "detail": "raw header bytes read=%d floor=2" % OBS_N.get("raw", 0)})
     # ---------------------------------------------------------- 1. parsers
     fast, slow = fns.get("parse_transport_fast"), fns.get("parse_transport_slow")
     if not fast or not slow:
@@ -423,3 +426,120 @@ def compute_key_params(fns):
                             key_params[nm].add(pn[rs[i]])
                             changed = True
             walk_ast(f, v)
+
+
+def health_slot_table(fns, consts, macros, ob):
+    """wan_outbound_is_alive tests the slot of the flow's own health domain: TCP -> domain 0,
+    UDP (other than the DNS port, which never reaches the test) -> domain 2 (data UDP);
+    the control plane publishes data-UDP health at outbound*6 + 2*2 + family"""
+    f = fns.get("wan_outbound_is_alive")
+    if f is None:
+        ob("LIVENESS", "health-slot-domain-table", None, False, "wan_outbound_is_alive not found: rule lost its anchor")
+        return
+    g = CFG(f)
+    allc = dict(consts)
+    allc.update({k: v for k, v in macros.items() if isinstance(v, int)})
+    res = {}
+    und = []
+    for name, proto in (("tcp", 6), ("udp", 17)):
+        def stop(n):
+            return n.kind == "stmt" and n.ast is not None and re.match(r"\s*\(?\s*key\s*=[^=]", render(n.ast)) is not None
+        outs, u = cinterp.run(g, {"l4proto": proto}, allc, ["domain_idx"], stop=stop)
+        und += u
+        vals = set()
+        for o in outs:
+            m = re.match(r"stop \{domain_idx=(\w+)", o)
+            if m:
+                vals.add(m.group(1))
+        res[name] = vals
+    ok = res.get("tcp") == {"0"} and "2" in res.get("udp", set()) and res.get("udp", set()) <= {"1", "2"} and not und
+    ob("LIVENESS", "health-slot-domain-table", f.get("loc", {}).get("line"), ok,
+       "the slot tested before a redirect is the flow's own health domain: TCP -> domain 0 (found %s), UDP data -> domain 2 (found %s; 1 is the never-reached DNS arm)%s — the control plane publishes data-UDP health in domain 2, so testing another slot drops or admits flows by the wrong bit"
+       % (sorted(res.get("tcp", [])), sorted(res.get("udp", [])), "" if not und else " — undecided: %s" % und[:2]))
+
+
+def raw_header_bytes(fns, cf, ob):
+    """header bytes that a non-parser function reads through a byte view of a parsed IP header
+    (DSCP of IPv6 is taken from raw bytes 0 and 1) are copied by the direct-access parser"""
+    fast = fns.get("parse_transport_fast")
+    if fast is None:
+        return
+    n = 0
+    for st in ("ipv6hdr", "iphdr"):
+        rec = cf.get("records", {}).get(st)
+        if not rec:
+            continue
+        reads = {}
+        for nm, f in fns.items():
+            if nm in ("parse_transport_fast", "parse_transport_slow"):
+                continue
+            views = set()
+            def dv(x):
+                if x.get("kind") == "VarDecl":
+                    qt = x.get("type", {}).get("qualType", "")
+                    if re.search(r"\b(__u8|unsigned char|u8)\s*\*", qt):
+                        src = []
+                        def cv(y):
+                            if y.get("kind") in ("CStyleCastExpr", "ImplicitCastExpr"):
+                                for c in inner(y):
+                                    t = c.get("type", {}).get("qualType", "")
+                                    if ("struct " + st) in t:
+                                        src.append(1)
+                        walk_ast(x, cv)
+                        if src:
+                            views.add(x.get("name"))
+            walk_ast(f, dv)
+            if not views:
+                continue
+            def rv(x):
+                if x.get("kind") == "ArraySubscriptExpr":
+                    b, i = inner(x)
+                    bn = strip(b)
+                    while bn.get("kind") in ("ImplicitCastExpr", "ParenExpr") and inner(bn):
+                        bn = strip(inner(bn)[0])
+                    nm2 = (bn.get("referencedDecl") or {}).get("name")
+                    iv = strip(i)
+                    if nm2 in views and iv.get("kind") == "IntegerLiteral":
+                        reads.setdefault(int(iv["value"]), []).append("%s:%s" % (nm, lineof(x)))
+            walk_ast(f, rv)
+        if not reads:
+            continue
+        n += len(reads)
+        # bytes of that header written by the fast parser
+        written = set()
+        fields = {fl["name"]: fl for fl in rec["fields"] if fl.get("name")}
+        for fld, w, line in member_accesses(fast, st):
+            if w and fld in fields:
+                fl = fields[fld]
+                sz = _leaf_size(fl.get("type", "")) or 1
+                written.update(range(fl["offset"], fl["offset"] + sz))
+        def mc(x):
+            if x.get("kind") == "CallExpr":
+                a = inner(x)
+                if "memcpy" in render(a[0]) and len(a) >= 4:
+                    d0 = strip(a[1])
+                    while d0.get("kind") in ("ImplicitCastExpr", "CStyleCastExpr", "ParenExpr") and inner(d0):
+                        d0 = strip(inner(d0)[0])
+                    dt = d0.get("type", {}).get("qualType", "")
+                    sz = strip(a[3])
+                    if ("struct " + st) in dt and sz.get("kind") == "IntegerLiteral":
+                        written.update(range(0, int(sz["value"])))
+        walk_ast(fast, mc)
+        missing = sorted(b for b in reads if b not in written)
+        ob("PARSER", "raw-header-bytes-read-are-written-by-fast-parser@" + st, fast.get("loc", {}).get("line"), not missing,
+           "raw bytes %s of struct %s, read through a byte view outside the parsers (%s), are copied by the direct-access parser (it writes bytes %s)%s"
+           % (sorted(reads), st, "; ".join(sorted({v[0] for v in reads.values()})), _ranges(written), "" if not missing else " — NOT copied: byte(s) %s: the value then depends on which parser handled the frame" % missing))
+    OBS_N["raw"] = n
+
+OBS_N = {}
+
+def _ranges(s):
+    s = sorted(s)
+    out, i = [], 0
+    while i < len(s):
+        j = i
+        while j + 1 < len(s) and s[j + 1] == s[j] + 1:
+            j += 1
+        out.append("%d-%d" % (s[i], s[j]) if j > i else "%d" % s[i])
+        i = j + 1
+    return ",".join(out)
